@@ -324,8 +324,10 @@ func (m *canaryReleaseManager) doCanaryJump(c *RolloutContext) (jumped bool) {
 		canaryStatus.CurrentStepIndex = nextIndex
 		canaryStatus.NextStepIndex = util.NextBatchIndex(c.Rollout, nextIndex)
 		nextStep := c.Rollout.Spec.Strategy.Canary.Steps[nextIndex-1]
-		// compare next step and current step to decide the state we should go
-		if reflect.DeepEqual(nextStep.Replicas, currentStep.Replicas) {
+		// compare next step and current step to decide the state we should go: the upgrade can only be skipped
+		// if the pods of the current step (the same replicas) have already been upgraded and reported ready
+		upgraded := currentStepStateBackup != v1beta1.CanaryStepStateInit && currentStepStateBackup != v1beta1.CanaryStepStateUpgrade
+		if reflect.DeepEqual(nextStep.Replicas, currentStep.Replicas) && upgraded {
 			canaryStatus.CurrentStepState = v1beta1.CanaryStepStateTrafficRouting
 		} else {
 			canaryStatus.CurrentStepState = v1beta1.CanaryStepStateInit
